@@ -1,12 +1,16 @@
 #!/bin/sh
-# tools/verify_seed.sh NN [checks...] : verify a seeded change living in /tmp/seed/wtNN and run checks against it
+# tools/verify_seed.sh NN [checks...] : verify the seeded change /tmp/seed/CNN.patch.diff on a fresh worktree of /repo HEAD
 NN=$1; shift
-WT=/tmp/seed/wt$NN
+WT=/tmp/seed/v$NN
 cd /verif || exit 2
-echo "== diffstat"; git -C $WT diff --stat | tail -3
+git -C /repo worktree remove --force $WT 2>/dev/null
+git -C /repo worktree add -q --detach $WT HEAD || exit 2
+if ! git -C $WT apply /tmp/seed/C$NN.patch.diff; then echo "PATCH DOES NOT APPLY on current HEAD"; git -C /repo worktree remove --force $WT; exit 3; fi
+echo "== base $(git -C $WT log --format=%h -1); diffstat"; git -C $WT diff --stat | tail -2
 echo "== demo with change:"; PYTHONPATH=$WT/src /venv/bin/python /tmp/seed/C$NN.demo.py >/tmp/seed/C$NN.demo.with.log 2>&1; echo "exit $?"; tail -2 /tmp/seed/C$NN.demo.with.log
 echo "== demo without change:"; PYTHONPATH=/repo/src /venv/bin/python /tmp/seed/C$NN.demo.py >/tmp/seed/C$NN.demo.without.log 2>&1; echo "exit $?"
-echo "== suite with change:"; (cd $WT && PYTHONPATH=$WT/src /venv/bin/python -m pytest -q -p no:cacheprovider -n 8 src/fparser 2>&1 | tail -1)
+echo "== suite with change:"; (cd $WT && PYTHONPATH=$WT/src /venv/bin/python -m pytest -q -p no:cacheprovider -n 8 src/fparser 2>&1 | tail -1) | tee /tmp/seed/C$NN.suite.log
 for c in ${@:-C$NN}; do
   echo "== check $c against the change:"; FPARSER_SRC=$WT/src ./check $c --tier quick > /tmp/seed/C$NN.check.$c.log 2>&1; echo "exit $?"; grep -A1 "^VIOLATION" /tmp/seed/C$NN.check.$c.log | head -6; tail -1 /tmp/seed/C$NN.check.$c.log
 done
+git -C /repo worktree remove --force $WT
